@@ -2,10 +2,10 @@
 
 Correspondence: whole operation sequences are run on the real `emd.cycles.Cycles` (cache on AND
 off) and on the Lean state machine `Container.step`; after the constructor and after every
-operation the complete observable state is compared: metric store (names in order, lengths,
-values, NaN <-> nan), subset / chain vectors, stored conditions, `get_matching_cycles(probe)`,
+operation the complete observable state is compared: metric store (as a mapping name -> values: lengths,
+values, NaN <-> nan; the order of the names is not compared), subset / chain vectors, stored conditions, `get_matching_cycles(probe)`,
 and the three `get_metric_dataframe` modes (pandas builds the table; row count, column names and
-cells are compared).  Python's `float()` is an oracle: for every condition string the harness
+cells are compared, columns matched by name).  Python's `float()` is an oracle: for every condition string the harness
 sends `float(cond[i:])` for every suffix; the model decides which suffix is the literal.
 
 Instance check (plain Python, independent of emd and of the model): one entry per cycle; a
@@ -44,7 +44,17 @@ ASSUMPTIONS = ['per-sample value vectors have one value per sample (hypothesis O
                'which the instance check does not judge: a vector of another length is not a per-sample vector of the record); '
                'values are small integers so every float sum is exact',
                'condition literals are finite numbers (no inf / nan literal)',
-               'add_cycle_metric returning (not raising) its ValueError on a length mismatch is canonicalised to a rejection: the store is unchanged either way']
+               'add_cycle_metric returning (not raising) its ValueError on a length mismatch is canonicalised to a rejection: the store is unchanged either way',
+               'NOT JUDGED by the instance check (outside statement / quantifier; the correspondence still compares code and model): value vectors '
+               'shorter OR longer than the record and everything after one in a sequence (cache on/off may differ there); an empty condition list; '
+               'condition literals with blanks or digit-group underscores; whether a subset export before any selection raises; the name / presence '
+               'of pandas\' index column and the column ORDER of exports (columns are matched by name, rows by the metric values of the wanted cycles); '
+               'refusing an EMPTY selection, chain timings / chain metrics on an empty selection; the error CLASS of a refused operation (cache on '
+               'vs off); placeholder -1 vs NaN on unselected cycles; truncation vs rounding of an integer chain metric',
+               'MECHANISM-LEVEL (literal=False): the stored condition list mask_conditions, the auto-stored metric names is_good / chain_ind, '
+               'atomicity of a failing operation, and - for augmented-mode metrics - the cycles whose previous cycle reverses, touches 1.5 pi '
+               'exactly or lies past 1.5 pi entirely (there "from the first sample past 1.5 pi" and "back to the last sample before 1.5 pi" '
+               'name different augmented cycles; on all other cycles the value is judged literally)']
 THR = 1.5 * np.pi
 FNAMES = ['mean', 'max', 'sum', 'len', 'first', 'last', 'nunique']
 RULE = ('sequences: exhaustive over a 10-operation alphabet up to length 3 (quick) / 4 (thorough) on three alphabet phases (one shorter on the zero-cycle phase), plus random '
@@ -302,16 +312,24 @@ def _leq(a, b):
     return len(a) == len(b) and all(_veq(x, y) for x, y in zip(a, b))
 
 
+def _placeholder_leq(got, exp, sub):
+    """_leq, except that an unselected cycle (sub[k] < 0) may carry the placeholder -1 or NaN"""
+    return len(got) == len(exp) == len(sub) and all(
+        _veq(g, e) or (sk < 0 and g in (None, -1.0)) for g, e, sk in zip(got, exp, sub))
+
+
 def _tbl_diff(a, b):
     if ('err' in a) or ('err' in b):
         return None if a == b else 'table %s vs %s' % (a.get('err', 'ok'), b.get('err', 'ok'))
-    if a['cols'] != b['cols']:
+    # columns are matched by NAME: their order (= the iteration order of the metrics dict) is not fixed by the property
+    if sorted(a['cols']) != sorted(b['cols']) or len(set(a['cols'])) != len(a['cols']):
         return 'columns %s vs %s' % (a['cols'], b['cols'])
     if len(a['rows']) != len(b['rows']):
         return 'row count %d vs %d' % (len(a['rows']), len(b['rows']))
+    perm = [b['cols'].index(c) for c in a['cols']]
     for i, (x, y) in enumerate(zip(a['rows'], b['rows'])):
-        if not _leq(x, y):
-            return 'row %d: %s vs %s' % (i, x, y)
+        if len(x) != len(perm) or len(y) != len(perm) or not _leq(x, [y[j] for j in perm]):
+            return 'row %d: %s vs %s (columns %s vs %s)' % (i, x, y, a['cols'], b['cols'])
     return None
 
 
@@ -321,12 +339,15 @@ def step_diff(a, b):
         return 'status', '%s vs %s' % (a['st'], b['st'])
     if a['K'] != b['K']:
         return 'ncycles', '%s vs %s' % (a['K'], b['K'])
+    # the metric store is compared as a MAPPING name -> values: the order in which an operation stores its metrics is
+    # not fixed by the property (harmless rewrite 2 of round 2 stored `duration` first)
     na, nb = [m[0] for m in a['metrics']], [m[0] for m in b['metrics']]
-    if na != nb:
+    if sorted(na) != sorted(nb) or len(set(na)) != len(na):
         return 'metric-names', '%s vs %s' % (na, nb)
-    for (n1, v1), (_, v2) in zip(a['metrics'], b['metrics']):
-        if not _leq(v1, v2):
-            return 'metric:' + n1, '%s vs %s' % (v1[:12], v2[:12])
+    db = dict((n, v) for n, v in b['metrics'])
+    for n1, v1 in a['metrics']:
+        if not _leq(v1, db[n1]):
+            return 'metric:' + n1, '%s vs %s' % (v1[:12], db[n1][:12])
     if a['sel'] != b['sel']:
         return 'selection', '%s vs %s' % (a['sel'], b['sel'])
     ra, rb = a.get('ret'), b.get('ret')
@@ -378,6 +399,8 @@ def wellformed(cond):
     m = COND_RE.match(cond)
     if not m:
         return None
+    if m.group(3) != m.group(3).strip() or '_' in m.group(3):
+        return None      # blanks / digit-group underscores: accepted by Python's float(), not a documented literal form
     try:
         v = float(m.group(3))
     except ValueError:
@@ -391,6 +414,8 @@ def oracle_matching(metrics, conds, K):
     """Conjunction of the conditions on the metric store; None when a condition is not evaluable."""
     md = dict((n, v) for n, v in metrics)
     cols = []
+    if len(conds) == 0:
+        return None      # the quantifier has 1-3 conditions: what an empty list selects is not claimed
     for c in conds:
         w = wellformed(c)
         if w is None or w[0] not in md or len(md[w[0]]) != K:
@@ -449,6 +474,39 @@ def oracle_stat(case, lab, K, op):
     return out
 
 
+def aug_ambiguous(case, lab, K):
+    """per cycle: True when "the augmented cycle" is not pinned down by the documentation (an extra segment
+    overlapping the previous cycle past its trough): the phase of the previous cycle is not strictly increasing or
+    touches 1.5 pi exactly or lies past 1.5 pi entirely, so that 'from the first sample past 1.5 pi' and 'back to the
+    last sample before 1.5 pi' name different samples."""
+    ph = case['phase']
+    out = []
+    for k in range(K):
+        prev = [ph[i] for i in range(len(lab)) if lab[i] == k - 1] if k > 0 else []
+        # (also when the previous cycle starts past the trough already: its crossing of 1.5 pi is not in that cycle)
+        out.append(any(b <= a for a, b in zip(prev, prev[1:])) or any(v == THR for v in prev) or (bool(prev) and prev[0] >= THR))
+    return out
+
+
+def export_shows(table, metrics, want):
+    """Does the exported table show exactly the cycles `want` with their metric values?  Columns are matched by NAME;
+    one extra leading column (pandas' index column, whatever it is called) is allowed and not judged."""
+    names = [n for n, _ in metrics]
+    cols = table['cols']
+    lead = 0
+    if len(cols) == len(names) + 1 and sorted(cols[1:]) == sorted(names):
+        lead = 1
+    elif sorted(cols) != sorted(names):
+        return False
+    pos = {c: j for j, c in enumerate(cols) if j >= lead}
+    if len(table['rows']) != len(want):
+        return False
+    for k, r in zip(want, table['rows']):
+        if not _leq([r[pos[n]] for n in names], [v[k] for _, v in metrics]):
+            return False
+    return True
+
+
 def outside_domain(case, op):
     """'short' / 'long' when a compute-metric operation is handed a vector that does not have one value per
     sample (outside the property's quantifier: not a per-sample vector of this record), else None."""
@@ -465,8 +523,11 @@ def check_trace(case, tr, tag):
     """The property on one trace (one cache setting). Returns {kind: Failure}."""
     fs = {}
 
-    def fail(kind, i, detail):
-        fs.setdefault(kind, Failure(kind, '%s step %d (%s): %s' % (tag, i, 'init' if i == 0 else case['ops'][i - 1]['op'], detail)))
+    def fail(kind, i, detail, literal=True):
+        f = Failure(kind, '%s step %d (%s): %s' % (tag, i, 'init' if i == 0 else case['ops'][i - 1]['op'], detail), literal=literal)
+        if kind in fs and literal and not fs[kind].literal:
+            fs[kind] = f
+        fs.setdefault(kind, f)
 
     lab = labels_of(case)
     K = max(lab) + 1 if lab else 0
@@ -481,19 +542,28 @@ def check_trace(case, tr, tag):
         if st['K'] != K:
             fail('ncycles-wrong', i, 'container reports %d cycles, the phase has %d' % (st['K'], K))
         if i == 0 and 'is_good' not in md:
-            fail('is_good-missing', i, 'metrics after construction: %s' % list(md))
+            # which metrics the constructor stores on its own is not in the statement: mechanism-level
+            fail('is_good-missing', i, 'metrics after construction: %s' % list(md), literal=False)
         for n, v in st['metrics']:
             if len(v) != K:
                 fail('metric-length', i, 'metric %r has %d entries for %d cycles' % (n, len(v), K))
         # ---- a computed metric is f on each cycle's samples -----------------------------------
-        if outside_domain(case, op) == 'short':
-            pass      # outside the domain: nothing is claimed (the correspondence still compares model and code)
+        if outside_domain(case, op) is not None:
+            pass      # a vector shorter OR longer than the record is not a per-sample vector of it: outside the domain,
+            #           nothing is claimed (the correspondence still compares model and code)
         elif op and op['op'] == 'compute' and st['st'] == 'ok':
             exp = oracle_stat(case, lab, K, op)
-            if op['name'] not in md or not _leq(md[op['name']], exp):
+            got = md.get(op['name'])
+            if got is None or not _leq(got, exp):
+                # augmented mode: literal on the cycles whose augmented cycle is pinned down by the documentation; where
+                # the previous cycle's phase reverses / touches 1.5 pi the rule used here is one of two readings
+                lit = True
+                if op['mode'] == 'augmented' and got is not None and len(got) == len(exp):
+                    amb = aug_ambiguous(case, lab, K)
+                    lit = any(not _veq(g, e) for g, e, a in zip(got, exp, amb) if not a)
                 fail('metric-value:' + op['mode'], i, 'metric %r = %s, expected %s(%s samples) = %s'
-                     % (op['name'], md.get(op['name'], 'missing')[:10] if op['name'] in md else 'missing', op['f'], op['mode'], exp[:10]))
-        if op and op['op'] == 'compute' and st['st'] != 'ok' and outside_domain(case, op) != 'short':
+                     % (op['name'], got[:10] if got is not None else 'missing', op['f'], op['mode'], exp[:10]), literal=lit)
+        if op and op['op'] == 'compute' and st['st'] != 'ok' and outside_domain(case, op) is None:
             fail('compute-metric-raises:' + st['st'], i, 'compute_cycle_metric(%r, mode=%s) raised' % (op['name'], op['mode']))
         if op and op['op'] == 'timings' and st['st'] == 'ok':
             n = len(lab)
@@ -519,11 +589,15 @@ def check_trace(case, tr, tag):
                              % (op['conds'], valids, st['sel'] and st['sel']['sub']))
                 else:
                     pick = None      # conditions outside the documented form: only the correspondence speaks
-            elif valids is not None:
+            elif valids is not None and any(valids):
+                # (an EMPTY selection may be refused with an error: the property says what the subset is, not that
+                # selecting nothing must succeed)
                 fail('pick-rejects-valid-conditions:' + st['st'], i, 'conditions %s match %s' % (op['conds'], valids))
         sel = st['sel']
         if sel is not None and (sel['sub'] is None or sel['ch'] is None or sel['conds'] is None):
-            fail('selection-half-set', i, str(sel))
+            # subset without chains (or the reverse) contradicts "chains are the maximal runs of selected cycles"; the
+            # stored condition list (`mask_conditions`) is not mentioned by the property: mechanism-level on its own
+            fail('selection-half-set', i, str(sel), literal=(sel['sub'] is None) != (sel['ch'] is None))
         elif sel is not None:
             sub, ch = sel['sub'], sel['ch']
             if len(sub) != K:
@@ -535,26 +609,26 @@ def check_trace(case, tr, tag):
             if pick is not None:
                 if sel['conds'] != pick['conds']:
                     fail('stored-conditions-not-those-of-the-subset', i,
-                         'mask_conditions %s but the subset was selected with %s' % (sel['conds'], pick['conds']))
+                         'mask_conditions %s but the subset was selected with %s' % (sel['conds'], pick['conds']), literal=False)
                 if sub != oracle_rank(pick['valids']):
                     fail('subset-changed-without-selection', i, str(sub))
             if not chain_ind_user and len(sub) == K and ch == oracle_chains(sub) and sub == oracle_rank([x >= 0 for x in sub]):
                 exp = [float(ch[s]) if s >= 0 else -1.0 for s in sub]
-                if 'chain_ind' not in md or not _leq(md['chain_ind'], exp):
+                if 'chain_ind' not in md:
+                    # that a selection stores a metric called chain_ind is not in the statement: mechanism-level
+                    fail('chain_ind-disagrees', i, 'no chain_ind metric; subset %s chains %s' % (sub, ch), literal=False)
+                elif not _leq(md['chain_ind'], exp) and not _leq(md['chain_ind'], [None if v < 0 else v for v in exp]):
                     fail('chain_ind-disagrees', i, 'chain_ind %s, subset %s chains %s' % (md.get('chain_ind'), sub, ch))
-            # the subset export shows exactly the selected cycles
+            # the subset export shows exactly the selected cycles (columns matched by name; the layout of pandas' index
+            # column is not judged)
             ts = st['TS']
-            icol = 'index' if 'index' not in md else 'level_0'     # pandas' reset_index naming
-            if 'err' not in ts and len(sub) == K:
+            if 'err' not in ts and len(sub) == K and all(len(v) == K for _, v in st['metrics']):
                 want = [k for k in range(K) if sub[k] >= 0]
-                names = [n for n, _ in st['metrics']]
-                if ts['cols'] != [icol] + names or len(ts['rows']) != len(want) or any(
-                        not _leq(r, [float(k)] + [v[k] for _, v in st['metrics']]) for k, r in zip(want, ts['rows'])):
-                    fail('subset-export-rows', i, 'rows %s, selected cycles %s' % ([r[0] for r in ts['rows']], want))
+                if not export_shows(ts, st['metrics'], want):
+                    fail('subset-export-rows', i, 'columns %s rows %s, selected cycles %s' % (ts['cols'], [r[:1] for r in ts['rows']], want))
             if 'err' in ts and not ('index' in md and 'level_0' in md):
                 fail('subset-export-raises:' + ts['err'], i, 'get_metric_dataframe(subset=True)')
-        elif 'err' in st['TS']:
-            fail('subset-export-raises:' + st['TS']['err'], i, 'no selection')
+        # (no selection yet: whether a subset export then raises or shows every cycle is not claimed)
         # ---- chain timings ---------------------------------------------------------------------
         if op and op['op'] == 'chain_timings':
             if st['st'] == 'ok' and sel is not None and sel['sub'] is not None and len(sel['sub']) == K \
@@ -571,65 +645,71 @@ def check_trace(case, tr, tag):
                         cyc = [kk for kk in range(K) if sub[kk] >= 0 and ch[sub[kk]] == ch[sub[k]]]
                         idx = [j for j in range(n) if lab[j] in cyc]
                         exp.append(float(PYF[f](idx if src == 'idx' else [lab[j] for j in idx])))
-                    if name not in md or not _leq(md[name], exp):
+                    if name not in md or not _placeholder_leq(md[name], exp, sub):
                         fail('chain-timing-value:' + name, i, '%s = %s expected %s' % (name, md.get(name), exp))
                 exp = []
                 for k in range(K):
                     exp.append(-1.0 if sub[k] < 0 else float(sum(1 for kk in range(k) if sub[kk] >= 0 and ch[sub[kk]] == ch[sub[k]])))
-                if not _leq(md.get('chain_position', []), exp):
+                if not _placeholder_leq(md.get('chain_position', []), exp, sub):
                     fail('chain-timing-value:chain_position', i, '%s expected %s' % (md.get('chain_position'), exp))
-            elif st['st'] != 'ok' and sel is not None:
+            elif st['st'] != 'ok' and sel is not None and sel['sub'] is not None and any(x >= 0 for x in sel['sub']):
+                # (with nothing selected there are no chains: refusing is as good as storing placeholders)
                 fail('chain-timings-raise:' + st['st'], i, 'selection %s' % sel)
         if op and op['op'] == 'chain_metric':
             if st['st'] == 'ok' and sel is not None and sel['sub'] is not None and len(sel['sub']) == K \
                     and sel['sub'] == oracle_rank([x >= 0 for x in sel['sub']]):
                 sub, ch = sel['sub'], oracle_chains(sel['sub'])
                 n = len(lab)
-                exp = []
+                exp, alt = [], []
                 for k in range(K):
                     if sub[k] < 0:
                         exp.append(-1.0 if op['int'] else None)
+                        alt.append(exp[-1])
                         continue
                     cyc = [kk for kk in range(K) if sub[kk] >= 0 and ch[sub[kk]] == ch[sub[k]]]
                     v = float(PYF[op['f']]([op['vals'][j] for j in range(n) if lab[j] in cyc]))
-                    exp.append(float(int(v)) if op['int'] else v)      # astype(int) truncates toward zero
-                if op['name'] not in md or not _leq(md[op['name']], exp):
-                    fail('chain-metric-value', i, '%s = %s expected %s' % (op['name'], md.get(op['name']), exp))
-            elif st['st'] != 'ok' and sel is not None:
+                    exp.append(float(int(v)) if op['int'] else v)      # astype(int) truncates toward zero ...
+                    alt.append(float(math.floor(v + 0.5)) if op['int'] else v)   # ... rounding is an equally good integer form
+                got = md.get(op['name'])
+                if got is None or len(got) != K or len(op['vals']) != n:
+                    if got is None or len(op['vals']) == n:
+                        fail('chain-metric-value', i, '%s = %s expected %s' % (op['name'], got, exp))
+                elif not all((_veq(g, e) or _veq(g, a) or (sub[k] < 0 and g in (None, -1.0))) for k, (g, e, a) in enumerate(zip(got, exp, alt))):
+                    fail('chain-metric-value', i, '%s = %s expected %s' % (op['name'], got, exp))
+            elif st['st'] != 'ok' and sel is not None and sel['sub'] is not None and any(x >= 0 for x in sel['sub']) \
+                    and len(op['vals']) == len(lab):
                 fail('chain-metric-raises:' + st['st'], i, 'selection %s' % sel)
         # ---- exports ----------------------------------------------------------------------------
         ta = st['TA']
         if 'err' in ta:
             fail('export-raises:' + ta['err'], i, 'get_metric_dataframe()')
         elif all(len(v) == K for v in md.values()):
-            if ta['cols'] != [n for n, _ in st['metrics']]:
+            if sorted(ta['cols']) != sorted(n for n, _ in st['metrics']):
                 fail('export-columns', i, '%s vs metrics %s' % (ta['cols'], [n for n, _ in st['metrics']]))
-            elif len(ta['rows']) != K or any(not _leq(r, [v[k] for _, v in st['metrics']]) for k, r in enumerate(ta['rows'])):
+            elif not export_shows(ta, st['metrics'], list(range(K))):
                 fail('export-cells', i, 'table does not reproduce the metric store')
         want = oracle_matching(st['metrics'], case['probe'], K)
         if want is not None:
             if st['PM'] != {'ok': want}:
                 fail('matching-not-conjunction', i, 'conditions %s: got %s expected %s' % (case['probe'], st['PM'], want))
             tc = st['TC']
-            icol = 'index' if 'index' not in md else 'level_0'     # pandas' reset_index naming
             if 'err' in tc:
                 if not ('index' in md and 'level_0' in md):
                     fail('conditions-export-raises:' + tc['err'], i, str(case['probe']))
-            else:
+            elif all(len(v) == K for _, v in st['metrics']):
                 rows = [k for k in range(K) if want[k]]
-                names = [n for n, _ in st['metrics']]
-                if tc['cols'] != [icol] + names or len(tc['rows']) != len(rows) or any(
-                        not _leq(r, [float(k)] + [v[k] for _, v in st['metrics']]) for k, r in zip(rows, tc['rows'])):
-                    fail('conditions-export-rows', i, 'conditions %s match cycles %s; table rows %s'
-                         % (case['probe'], rows, [r[0] for r in tc['rows']]))
+                if not export_shows(tc, st['metrics'], rows):
+                    fail('conditions-export-rows', i, 'conditions %s match cycles %s; table columns %s rows %s'
+                         % (case['probe'], rows, tc['cols'], [r[:1] for r in tc['rows']]))
         if op and op['op'] == 'match' and st['st'] == 'ok':
             w = oracle_matching(prev['metrics'], op['conds'], K)
             if w is not None and st['ret'] != {'bools': w}:
                 fail('matching-not-conjunction', i, 'conditions %s: got %s expected %s' % (op['conds'], st['ret'], w))
         # ---- a failed operation leaves no trace in the metric store --------------------------------
         if op and st['st'] != 'ok' and prev is not None:
-            if [m[0] for m in st['metrics']] != [m[0] for m in prev['metrics']] and op['op'] not in ('timings', 'chain_timings'):
-                fail('failed-operation-changed-metrics', i, '%s raised %s' % (op['op'], st['st']))
+            if sorted(m[0] for m in st['metrics']) != sorted(m[0] for m in prev['metrics']) and op['op'] not in ('timings', 'chain_timings'):
+                # atomicity of a failing operation is not stated by the property: mechanism-level
+                fail('failed-operation-changed-metrics', i, '%s raised %s' % (op['op'], st['st']), literal=False)
     return fs
 
 
@@ -657,7 +737,7 @@ class _Base(Stream):
 
     def holds(self, case, out):
         if isinstance(out, ImplError):
-            return [Failure('harness-error:' + out['error'], out.get('msg', ''))]
+            return [Failure('harness-error:' + out['error'], out.get('msg', ''), literal=out['error'] != 'Timeout')]
         fs = {}
         for key in ('on', 'off'):
             if 'trace' not in out[key]:
@@ -667,12 +747,22 @@ class _Base(Stream):
                 try:
                     found = check_trace(case, out[key]['trace'], 'cache-' + key)
                 except Exception as e:  # noqa  (an oracle tripping over an ill-formed state is itself a failure)
-                    found = {'instance-check-crashed': Failure('instance-check-crashed', repr(e))}
+                    found = {'instance-check-crashed': Failure('instance-check-crashed', repr(e), literal=False)}
                 for k, f in found.items():
                     fs.setdefault(k, f)
         d = trace_diff(out['on'], out['off'])
-        if d and d[1] > 0 and outside_domain(case, case['ops'][d[1] - 1]) == 'short':
-            d = None     # the two routes are known to differ on a short value vector (C15.cache_relevant_short_vals)
+        first_od = next((j + 1 for j, o_ in enumerate(case['ops']) if outside_domain(case, o_) is not None), None)
+        if d and first_od is not None and d[1] >= first_od:
+            d = None     # from a value vector that is not per-sample on (outside the domain) the two routes may differ
+            #              (they are known to on a short one: C15.cache_relevant_short_vals)
+        if d and d[0] == 'status' and 'trace' in out['on'] and 'trace' in out['off'] and \
+                out['on']['trace'][d[1]]['st'] != 'ok' and out['off']['trace'][d[1]]['st'] != 'ok':
+            # both routes refuse the operation, with different error classes: the class is not a result. Compare the rest.
+            on2 = {'trace': [dict(t_, st='rejected' if t_['st'] != 'ok' else 'ok') for t_ in out['on']['trace']]}
+            off2 = {'trace': [dict(t_, st='rejected' if t_['st'] != 'ok' else 'ok') for t_ in out['off']['trace']]}
+            d = trace_diff(on2, off2)
+            if d and first_od is not None and d[1] >= first_od:
+                d = None
         if d:
             where = d[0].split(':')[0]
             opn = 'init' if d[1] == 0 else case['ops'][d[1] - 1]['op']
@@ -1046,3 +1136,18 @@ class Conditions(_Base):
 
 
 STREAMS = [Exhaustive(), Random(), Conditions()]
+
+
+def _guard(fn):
+    """An exception inside an instance check is a harness fault (an oracle tripping over an unexpected but legal
+    output container), not the property's words failing: reported as mechanism-level, never as a violation."""
+    def holds(self, case, out):
+        try:
+            return fn(self, case, out)
+        except Exception as e:  # noqa
+            return [Failure('instance-check-crashed', repr(e), literal=False)]
+    return holds
+
+
+for _cls in {_b for _s in STREAMS for _b in type(_s).__mro__ if _b.__module__ == __name__ and 'holds' in _b.__dict__}:
+    _cls.holds = _guard(_cls.holds)
